@@ -1562,10 +1562,29 @@ func (s *BgpServer) propagateUpdateToNeighbors(rib *table.TableManager, source *
 					}()
 				} else {
 					alreadySent := targetPeer.hasPathAlreadyBeenSent(newPath)
+					replaced := newPath
 					newPath := s.filterpath(targetPeer, newPath, nil)
 					// if the path is not filtered and the path has already been sent or land in the limit, we can send it
 					if newPath == nil {
 						bestList = []*table.Path{}
+						if alreadySent {
+							// The version this path replaces was advertised under the same
+							// path identifier and the new one must not be: withdraw it, and
+							// give the freed slot to a path held back by send-max, if any.
+							w := replaced.Clone(true)
+							bestList = append(bestList, w)
+							if destination := rib.GetDestination(w); destination != nil {
+								for _, p := range destination.GetKnownPathList(targetPeer.TableID(), targetPeer.AS()) {
+									p := s.filterpath(targetPeer, p, nil)
+									if p == nil || !targetPeer.unsetPathSendMaxFiltered(p) {
+										continue
+									}
+									bestList = append(bestList, p)
+									break
+								}
+							}
+							targetPeer.updateRoutes(bestList...)
+						}
 					} else if alreadySent || targetPeer.getRoutesCount(f, newPath.GetPrefix()) < targetPeer.getAddPathSendMax(f) {
 						bestList = []*table.Path{newPath}
 						if !alreadySent {
